@@ -49,4 +49,16 @@ def run(tier):
             chk.violation("Derivative operator: %s" % json.dumps(v)[:500], {"kind": "derivative-case", **v})
         if rep["distinct_cases"] < 110:
             raise ToolError("vacuity: %d Derivative operator cases" % rep["distinct_cases"])
+    # conversions (the property names them): values of the vector types with absent parts through the subset / superset
+    # conversions -- membership, checked and unchecked narrowing, widening must treat an absent part as a part of zeros
+    crep = run_harness("hcore", ["convert", "--seed", str(seed()), "--samples", "40" if tier == "quick" else "1000"], timeout=3000)
+    nconv = sum(cnt for k, cnt in crep["per_case"].items() if "Vec" in k)
+    chk.cov["evaluations"] += nconv
+    chk.cov["conversion_checks_on_vector_types"] = nconv
+    for v in crep["violations"]:
+        blob = json.dumps(v)
+        if '"p": false' in blob or '"p":false' in blob:
+            chk.violation("conversion of a value with an absent part: %s" % blob[:500], {"kind": "convert-case", **v})
+    if nconv < 1000:
+        raise ToolError("vacuity: %d conversion checks on vector types" % nconv)
     return chk.finish(extra={"exhaustive": True})
